@@ -109,7 +109,7 @@ pub fn run(ctx: &Ctx) -> Report {
     total.merge(st);
     total.exhaustive_parts.push("all blank strings up to length 4 (quick) / 6 (thorough) over {space, tab, CR, LF}".into());
 
-    let cases = ctx.tier.pick(40_000u32, 1_500_000u32);
+    let cases = ctx.tier.pick(400_000u32, 4_000_000u32);
     let shards = 16;
     let rnd = run_shards(shards, |shard| {
         let mut st = Stats::new();
